@@ -1,4 +1,5 @@
 import TextxVerif.Proofs.HistoryWalk
+import TextxVerif.Load.SearchPath
 /-!
 # C16 — loading is independent of the metamodel's history
 
@@ -363,5 +364,89 @@ example :
     (load real (wWorld false) ownerSem 0 [inA] H).1.dump = 1 ∧
     (load real (wWorld false) ownerSem 0 [inA] { H with baseOwner := none }).1.dump = 0 := by
   decide +kernel
+
+/-! ## which files a load reads: imports through a search path (round V)
+
+`Load/SearchPath.lean`: the work-list mirror of `ImportURI._load_referenced_models` /
+`load_model_using_search_path`.  The provider's `search_path` list is the only thing that survives a load
+there; the code builds a new list per import (`[dirname(...)] + self.search_path`). -/
+
+theorem searchDirs_real (d : Nat) (sp : SPath) : (searchDirs false d sp).2 = sp := by
+  cases sp <;> simp [searchDirs]
+
+theorem dfs_real_sp (fs : FSys) : ∀ (fuel : Nat) (todo : List (Nat × String)) (acc : List Nat) (sp : SPath),
+    (dfs false fs fuel todo acc sp).2.2 = sp := by
+  intro fuel
+  induction fuel with
+  | zero => intro todo acc sp; simp [dfs]
+  | succ n ih =>
+    intro todo acc sp
+    cases todo with
+    | nil => simp [dfs]
+    | cons h t =>
+      obtain ⟨d, nm⟩ := h
+      have hs := searchDirs_real d sp
+      simp only [dfs]
+      generalize searchDirs false d sp = r at hs
+      obtain ⟨path, sp'⟩ := r
+      simp only at hs
+      subst hs
+      simp only
+      split
+      · rfl
+      · split
+        · exact ih _ _ _
+        · split
+          · rfl
+          · exact ih _ _ _
+
+/-- **A load leaves the provider as it found it**: whatever the file system, the main file and the
+configured search path (or none). -/
+theorem C16_imports_provider_unchanged (fs : FSys) (main : Nat) (sp : SPath) :
+    (loadOrder false fs main sp).2.2 = sp := by
+  unfold loadOrder
+  split
+  · rfl
+  · exact dfs_real_sp fs _ _ _ _
+
+/-- **The files a load reads do not depend on the loads before it**: in every history of file loads
+through one provider — models from any directories, imports found next to the importing file, through the
+search path, or not at all — each load parses exactly the files, in the order, that it parses as the first
+load of a freshly created provider; the provider's list is the configured one at the end. -/
+theorem C16_imports_history (fs : FSys) (ms : List Nat) (sp : SPath) :
+    runOrders false fs ms sp =
+      (ms.map fun m => ((loadOrder false fs m sp).1, (loadOrder false fs m sp).2.1), sp) := by
+  induction ms with
+  | nil => rfl
+  | cons m ms ih =>
+    have h := C16_imports_provider_unchanged fs m sp
+    simp only [runOrders, List.map_cons]
+    generalize loadOrder false fs m sp = r at h
+    obtain ⟨o, ok, sp'⟩ := r
+    simp only at h
+    subst h
+    simp [ih]
+
+/-- file system of the witnesses: directory 0 = the search-path directory (`units`), directory 1 = plant a
+(`main` imports `units`; own `units`, `extra`), directory 2 = plant b (`main` imports `units`),
+directory 3 = plant c (`main` imports `extra`, which exists only in plant a) -/
+def fsW : FSys := #[
+  { dir := 0, name := "units", imps := [] },
+  { dir := 1, name := "units", imps := [] }, { dir := 1, name := "extra", imps := [] },
+  { dir := 1, name := "main", imps := ["units"] },
+  { dir := 2, name := "main", imps := ["units"] },
+  { dir := 3, name := "main", imps := ["extra"] }]
+
+/-- non-vacuity: local file first, then the search path; a missing import ends the load -/
+example : runOrders false fsW [3, 4, 5] (some [0]) = ([([3, 1], true), ([4, 0], true), ([5], false)], some [0]) := by
+  decide
+
+/-- **The per-import copy of the list is needed**: when the importer's directory is pushed onto the
+provider's own list (the aliasing variant), plant b's `units` resolves to plant a's file after plant a was
+loaded, and plant c's missing import is found — neither happens on a fresh provider. -/
+theorem C16_imports_alias_false :
+    (runOrders true fsW [3, 4, 5] (some [0])).1 = [([3, 1], true), ([4, 1], true), ([5, 2], true)] ∧
+    (loadOrder true fsW 4 (some [0])).1 = [4, 0] ∧ (loadOrder true fsW 5 (some [0])).2.1 = false := by
+  decide
 
 end History
